@@ -185,6 +185,21 @@ def _boundary_distance(x, P):
     return np.abs(d - r) if r > 0 else d
 
 
+def _existence_decisive(x, name):
+    """Is the existence of the circum-/in-ball of x clear-cut (misfit < 1e-10 or >= 1e-2, as in C13)?"""
+    from checks.c13 import fit_circumball, fit_inball
+
+    V = np.asarray(x.vertices, dtype=float)
+    if name.startswith("circum"):
+        m = fit_circumball(V)[2]
+    elif isinstance(x, S.Polyhedron):
+        f_, nrm, off, _ = geom.convex_facets(V)
+        m = fit_inball(nrm, off - nrm @ V.mean(axis=0))[2]
+    else:
+        return False
+    return m < 1e-10 or m >= 1e-2
+
+
 def _thr_sig(Q, normals):
     q2 = np.einsum("ij,ij->i", Q, Q)
     zero = np.isclose(q2, 0)
@@ -254,9 +269,15 @@ def _run(case, rec):
         if isinstance(want, Raised) or isinstance(cg[name], Raised):
             a = want.type if isinstance(want, Raised) else "value"
             b = cg[name].type if isinstance(cg[name], Raised) else "value"
+            if a != b and name.startswith(("circumsphere", "circumcircle", "insphere", "incircle")) and not _existence_decisive(x, name):
+                rec.label("ball_existence_undecided")
+                continue
             rec.check(a == b, "covariant_equal", dict(sig, obs=name, x=a, gx=b), x=repr(cx[name])[:100], gx=repr(cg[name])[:100])
             continue
-        observe._cmp(rec, name, cg[name], want, L, three, sig, "covariant_", 1e-7)
+        # circum-/in-balls "exist" up to a relative residual of 1e-4 (least squares about the first vertex), so for a
+        # nearly cyclic/tangential shape the returned ball depends on the labelling at that level: a decision boundary
+        fuzzy = name.startswith(("circumsphere", "circumcircle", "insphere", "incircle"))
+        observe._cmp(rec, name, cg[name], want, L, three, sig, "covariant_", 3e-4 if fuzzy else 1e-7)
     # faces as vertex sets (in x's labels)
     if "faces" in cx and not isinstance(cx.get("faces"), Raised) and not isinstance(cg.get("faces"), Raised):
         rec.check(set(cx["faces"]) == set(cg["faces"]), "covariant_faces", sig)
@@ -323,8 +344,104 @@ def _run(case, rec):
             rec.close("covariant_distance_to_surface", b, s * np.asarray(a), 1e-9 * s * float(np.max(a)), sig)
 
 
+# ------------------------------------------------- ear clipping under scaling (also the atheris target)
+_TILTS = [np.eye(3), geom.rotation_from_quaternion(np.array([0.9, 0.3, -0.2, 0.25])),
+          geom.rotation_from_quaternion(np.array([0.5, 0.5, 0.5, 0.5])), geom.rotation_from_quaternion(np.array([0.2, -0.7, 0.6, 0.1]))]
+
+
+@st.composite
+def _ext_case(draw):
+    n = draw(st.integers(3, 9))
+    pts = draw(st.lists(st.tuples(st.integers(0, 7), st.integers(0, 7)), min_size=n, max_size=n, unique=True))
+    return {"pts": [list(p) for p in pts], "logs": draw(st.sampled_from([k / 2.0 for k in range(-6, 7)])), "tilt": draw(st.integers(0, 3))}
+
+
+def _lattice_extrusion(case, rec):
+    """A prism over an integer polygon whose caps are handed over as (possibly non-convex) faces, so that the
+    ear clipper is exercised; compared with its scaled and rotated copy."""
+    pts = [tuple(int(v) for v in p) for p in case["pts"]]
+    if len(pts) < 3 or len(set(pts)) != len(pts):
+        return
+    if not geom.is_simple_polygon_2d(pts):  # construct, don't reject: 2-opt uncrossing of the drawn cycle
+        pts = [tuple(int(v) for v in p) for p in gp._untangle(np.array(pts, dtype=float))]
+    pts = gp._dedupe_collinear_int(pts)
+    n = len(pts)
+    if n < 3 or not geom.is_simple_polygon_2d(pts):
+        return
+    A2 = sum(pts[i][0] * pts[(i + 1) % n][1] - pts[(i + 1) % n][0] * pts[i][1] for i in range(n))
+    if A2 == 0:
+        return
+    if A2 < 0:
+        pts = pts[::-1]
+    # no collinear triples (a degenerate corner is not a vertex of the polygon)
+    for i in range(n):
+        a, b, c_ = pts[i - 1], pts[i], pts[(i + 1) % n]
+        if (b[0] - a[0]) * (c_[1] - b[1]) - (b[1] - a[1]) * (c_[0] - b[0]) == 0:
+            return
+    # a vertex lying exactly on the segment between two other vertices puts it on the edge of a candidate ear:
+    # whether the ear is accepted is then decided by rounding (a decision boundary of ear clipping) - not generated
+    for i in range(n):
+        for j in range(n):
+            for k in range(j + 1, n):
+                if i in (j, k):
+                    continue
+                p, a, b = pts[i], pts[j], pts[k]
+                if (a[0] - p[0]) * (b[1] - p[1]) - (a[1] - p[1]) * (b[0] - p[0]) == 0 and \
+                        min(a[0], b[0]) <= p[0] <= max(a[0], b[0]) and min(a[1], b[1]) <= p[1] <= max(a[1], b[1]):
+                    rec.label("vertex_on_a_diagonal_skipped")
+                    return
+    xy = np.array(pts, dtype=float)
+    V0 = np.vstack([np.c_[xy, np.zeros(n)], np.c_[xy, np.full(n, 2.0)]])
+    F = [list(range(n))[::-1], [i + n for i in range(n)]] + [[i, (i + 1) % n, (i + 1) % n + n, i + n] for i in range(n)]
+    s = 10.0 ** case["logs"]
+    R = _TILTS[case["tilt"] % 4]
+    t = np.array([0.3, -0.2, 0.1]) * s
+    V1 = s * (V0 @ R.T) + t
+    info = {"s": s, "R": R, "t": t}
+    convex = bool(np.all([(pts[i][0] - pts[i - 1][0]) * (pts[(i + 1) % n][1] - pts[i][1]) - (pts[i][1] - pts[i - 1][1]) * (pts[(i + 1) % n][0] - pts[i][0]) > 0
+                          for i in range(n)]))
+    sig = {"cls": "Polyhedron", "caps": "convex" if convex else "nonconvex"}
+    rec.concrete = {"polygon": pts, "scale": s, "tilt": case["tilt"]}
+    rec.label("caps:" + sig["caps"], "scale!=1" if s != 1 else None, "small_scale" if s < 0.1 else None)
+    rec.nontrivial = (not convex) and s != 1
+    x = call(S.Polyhedron, V0.copy(), [np.array(f_) for f_ in F], convex)
+    gx = call(S.Polyhedron, V1.copy(), [np.array(f_) for f_ in F], convex)
+    if isinstance(x, Raised) or isinstance(gx, Raised):
+        rec.check(isinstance(x, Raised) and isinstance(gx, Raised), "covariant_construct", sig, x=repr(x)[:80], gx=repr(gx)[:80])
+        return
+    cx, cg = call(getattr, x, "centroid"), call(getattr, gx, "centroid")
+    if isinstance(cx, Raised) or isinstance(cg, Raised):
+        a = cx.type if isinstance(cx, Raised) else "value"
+        b = cg.type if isinstance(cg, Raised) else "value"
+        rec.check(a == b, "covariant_centroid", dict(sig, x=a, gx=b), x_msg=repr(cx)[:100], gx_msg=repr(cg)[:100])
+    else:
+        rec.close("covariant_centroid", cg, _pt(cx, info), 1e-9 * s * 12, sig)
+        # and against the exact value: polygon centroid, mid height
+        A, gx_, gy_, *_ = geom.polygon_xy_moments(xy)
+        rec.close("extrusion_centroid_exact", cx, [gx_, gy_, 1.0], 1e-9 * 12, sig)
+    P = np.array([[i + 0.5, j + 0.25, z] for i in range(-1, 8, 2) for j in range(-1, 8, 2) for z in (-0.5, 0.7, 1.3, 2.5)])
+    P = P[geom.segment_distance_2d(P[:, :2], xy, np.roll(xy, -1, axis=0)).min(axis=1) > 1e-6]
+    a, b = call(x.is_inside, P.copy()), call(gx.is_inside, _pt(P, info))
+    if isinstance(a, Raised) or isinstance(b, Raised):
+        ta = a.type if isinstance(a, Raised) else "value"
+        tb = b.type if isinstance(b, Raised) else "value"
+        rec.check(ta == tb, "covariant_is_inside", dict(sig, x=ta, gx=tb), x_msg=repr(a)[:100], gx_msg=repr(b)[:100])
+    else:
+        want = geom.crossing_number_inside(P[:, :2], xy) & (P[:, 2] > 0) & (P[:, 2] < 2)
+        rec.check(np.array_equal(np.asarray(b), want), "covariant_is_inside", sig, differing=int(np.sum(np.asarray(b) != want)))
+        rec.check(np.array_equal(np.asarray(a), want), "extrusion_is_inside_exact", sig, differing=int(np.sum(np.asarray(a) != want)))
+
+
+def fuzz_targets():
+    seeds = [bytes([2, 30, 0, 7, 63, 56, 27, 1]), bytes([4, 5, 0, 3, 27, 24, 60, 57, 2])]
+    return [{"clause": "lattice_extrusion", "decoder": "scaled_extrusion", "runs_quick": 2000, "runs_thorough": 150000, "seeds": seeds, "max_len": 24}]
+
+
 def clauses():
     q = {"ConvexPolyhedron": 220, "Polyhedron": 120, "ConvexSpheropolyhedron": 120, "Polygon": 300, "ConvexPolygon": 250, "ConvexSpheropolygon": 200,
          "Circle": 120, "Ellipse": 120, "Sphere": 120, "Ellipsoid": 120}
     return [Clause("covariance_" + k, _case(k), _run, quick=q[k], thorough=q[k] * 25, rule="x vs g.x for " + k,
-                   floors={"scaled>=10x": 0.1}) for k in KINDS]
+                   floors={"scaled>=10x": 0.1}) for k in KINDS] + [
+        Clause("lattice_extrusion", _ext_case(), _lattice_extrusion, quick=1500, thorough=30000,
+               rule="prisms over integer polygons with (non-convex) cap faces vs their scaled/rotated copies and the exact centroid/membership",
+               floors={})]
